@@ -159,8 +159,9 @@ def jobs(tier, seed):
     js = []
     D = {"*": [0, 2]}
     shapes = {
-        "tags3": ([F([S(1, tags=["t1"]), S(2, tags=["t2", "t3"])], tags=["t0"])], {"stop": "sym", "out_dom": D}),
-        "rule": ([F([S(1), R([S(1, tags=["t2"])], tags=["tr"]), R([S(1)])], tags=["t0"])], {"stop": "sym", "out_dom": D}),
+        # (tag names that contain hook-name words: the runner must dispatch on the hook, never on the tag text)
+        "tags3": ([F([S(1, tags=["small"]), S(2, tags=["stepwise", "tagged"])], tags=["featured"])], {"stop": "sym", "out_dom": D}),
+        "rule": ([F([S(1), R([S(1, tags=["scenario_x"])], tags=["ruler"]), R([S(1)])], tags=["t0"])], {"stop": "sym", "out_dom": D}),
         "outline": ([F([O(1, [(2, ["te"])], tags=["to"]), S(1)])], {"stop": "sym", "out_dom": D}),
         "2feat": ([F([S(1, tags=["t1"])], tags=["t0"]), F([S(1)])], {"stop": "sym", "dry_run": "sym", "out_dom": D}),
         "select": ([F([S(1, tags=["t1"]), S(1), R([S(1)], tags=["tr"])])], {"select": True, "out_dom": {"*": [0, 1]}}),
